@@ -70,6 +70,8 @@ def _simple_arg(e) -> bool:
         return True
     if isinstance(e, ast.Attribute):
         return _simple_arg(e.value)
+    if isinstance(e, ast.Subscript):
+        return _simple_arg(e.value) and _simple_arg(e.slice)     # a pure read: duplicating it is harmless
     return False
 
 
